@@ -63,3 +63,18 @@ Print Assumptions src_tie_get_weekday.
 Theorem src_tie_get_yearday : forall f r, get_yearday64 f = OK r -> r = tr_get_yearday (fy f) (fm f) (fd f).
 Proof. exact tr_get_yearday_eq. Qed.
 Print Assumptions src_tie_get_yearday.
+
+From CCTZ Require Import Source64 Source64Proofs Source64Cor.
+
+(* SOURCE-DERIVED checked functions (Source64.v, regenerated from clang's AST of the current
+   civil_time_detail.h on every run): get_weekday / get_yearday meet the calendar spec *)
+Theorem src64_weekday_meets_spec : forall f, valid_fields f = true -> int64 (fy f) ->
+  s64_get_weekday f = OK (weekday_of_days (days_from_civil (fy f) (fm f) (fd f))).
+Proof. exact src64_weekday_meets_spec_lemma. Qed.
+Print Assumptions src64_weekday_meets_spec.
+
+Theorem src64_yearday_meets_spec : forall f, valid_fields f = true -> int64 (fy f) ->
+  s64_get_yearday f = OK (days_from_civil (fy f) (fm f) (fd f) - days_from_civil (fy f) 1 1 + 1).
+Proof. exact src64_yearday_meets_spec_lemma. Qed.
+Print Assumptions src64_yearday_meets_spec.
+
